@@ -75,6 +75,28 @@ class C13(P.Property):
                     for k in range(n):
                         for when in ("before", "after"):
                             plans.append(self.base_plan(scheme, buf, [{"role": role, "when": when, "k": k}]))
+        if tier == "thorough":
+            plans.extend(self._enumerate_pairs("CJJ14.PiBas", 8192))
+        return plans
+
+    def _enumerate_pairs(self, scheme, buf):
+        """thorough tier: every ordered pair of crash points of the reference workflow (second crash anywhere after the first in the
+        same role, incl. inside the recovery, or anywhere in the other role) for one scheme and buffer size"""
+        plans = []
+        base = self._baseline.get((scheme, buf)) or {}
+        for role, n in sorted(base.items()):
+            for k in range(n):
+                for when in ("before", "after"):
+                    c1 = {"role": role, "when": when, "k": k}
+                    res = self.execute(self.base_plan(scheme, buf, [c1]))
+                    if res.violations:
+                        continue  # reported by the single-crash enumeration already
+                    total = res.extra.get("role_k", {})
+                    for role2, n2 in sorted(total.items()):
+                        lo = k + 1 if role2 == role else 0
+                        for k2 in range(lo, n2):
+                            for when2 in ("before", "after"):
+                                plans.append(self.base_plan(scheme, buf, [c1, {"role": role2, "when": when2, "k": k2}]))
         return plans
 
     def gen(self, seed, tier):
